@@ -293,6 +293,35 @@ fn subs_for<B: Backend>(out: &mut Vec<SubCheck>) {
             |c: &Case, acc: &mut Acc| run_case::<B>(c, acc),
         ));
     }
+    // high-cost parameters ("any other valid cost parameters"): far above the defaults, a few cases.
+    // Bounded by what is affordable: 1-1.5 M iterations / 64-192 MiB in quick, up to 5 M / 512 MiB thorough.
+    out.push(SubCheck::prop(
+        format!("c05.roundtrip/{}/pbkw-high-cost", B::NAME),
+        14,
+        (1, 5),
+        move |tier| {
+            let params: BoxedStrategy<PwParams> = if B::VER.nist() {
+                (1_000_001u32..=tier.pick(1_500_000, 5_000_000)).prop_map(|iterations| PwParams::Pbkdf2 { iterations }).boxed()
+            } else {
+                (64u64..=tier.pick(192, 512), 1u32..=tier.pick(3, 6)).prop_map(|(mib, time)| PwParams::Argon2id { mem_bytes: mib << 20, time, para: 1 }).boxed()
+            };
+            (params, gens::key_seed(), gens::password()).prop_map(|(p, wrapped, password)| Case {
+                op: Op::Pbkw(p),
+                secret: false,
+                key_random: false,
+                wrapped: wrapped.clone(),
+                wrapping: wrapped,
+                password,
+            })
+        },
+        |c: &Case, acc: &mut Acc| {
+            let r = run_case::<B>(c, acc);
+            if r.is_ok() {
+                acc.class("pbkw:high-cost-params");
+            }
+            r
+        },
+    ));
     // default-cost PBKW (expensive KDF): a handful
     out.push(SubCheck::prop(
         format!("c05.roundtrip/{}/pbkw-default-cost", B::NAME),
@@ -318,7 +347,7 @@ pub fn def() -> PropertyDef {
     PropertyDef {
         id: "C05",
         level: "exploration",
-        rule: "proptest cases (back end x {PIE, PBKW, PKE} x wrapped key {local, secret; parsed, random()} x wrapping key / password (any bytes incl. empty) / PBKW parameters (cheapest, random within budget, default) x recipient pair; v1 RSA-KEM draw scripted so that the ciphertext has 1-2 leading zero bytes); oracle = wrap ok, own text parses and re-serialises, unwrap returns the same key bytes, decoded length equals the format's fixed length; non-trivial iff non-default parameters, secret key payload, constructed draw, or parsed key",
+        rule: "proptest cases (back end x {PIE, PBKW, PKE} x wrapped key {local, secret; parsed, random()} x wrapping key / password (any bytes incl. empty) / PBKW parameters (cheapest, random within budget, default, and a few high-cost ones: > 10^6 PBKDF2 iterations / 64-192 MiB Argon2id) x recipient pair; v1 RSA-KEM draw scripted so that the ciphertext has 1-2 leading zero bytes); oracle = wrap ok, own text parses and re-serialises, unwrap returns the same key bytes, decoded length equals the format's fixed length; non-trivial iff non-default parameters, secret key payload, constructed draw, or parsed key",
         assumptions: vec![
             "PBKW parameters are bounded (<= 4 MiB / 3 passes / 10000 iterations) except the few default-cost cases",
             "v1 keys come from a committed pool of RSA-2048/4096 keys",
